@@ -4,7 +4,7 @@ import re
 
 from ..core import AnalysisError
 from .. import pyfront as P
-from .. import absint
+from .. import absint, gsa
 from ..absint import Env, ev, truthy, Unknown
 
 EXPLANATION = ('The C-spelling -> fundamental-type table of giscanner/ast.py is reconstructed by folding its module-level statements and '
@@ -151,42 +151,67 @@ def check(ctx):
                 'signed char': 'gint8', 'unsigned char': 'guint8'}
     for sp, want in sorted(SEMANTIC.items()):
         r1.check(F(sp) == want, '"%s" -> %s' % (sp, want), am.rel, 1, 'the C spelling "%s" maps to %s, documented default is %s' % (sp, F(sp), want), detail=F(sp))
-    # _Bool, char** return, GStrv
+    # _Bool, char** return, GStrv  (gated summary of create_type_from_ctype_string, canonicaliser kept opaque)
     cf = py.func('transformer', 'Transformer.create_type_from_ctype_string')
-    src_ = P.src(cf)
-    eff = P.effects(cf)
-    r1.check(any(e.kind == 'store' or True for e in eff) and "canonical in ('_Bool', 'bool')" in src_ and "canonical = 'gboolean'" in src_, '_Bool / bool -> gboolean', tm.rel, cf.lineno,
-             '_Bool is no longer canonicalised to gboolean')
-    arr_ret = [n for n in P.walk_no_nested(cf) if isinstance(n, ast.Return) and isinstance(n.value, ast.Call) and P.call_name(n.value) == 'ast.Array']
-    okarr = len(arr_ret) == 1 and any(g.text() == "is_return and canonical == 'utf8*' or base == 'GStrv'" for g in P.guards(arr_ret[0]))
-    r1.check(okarr, 'returned char** and GStrv -> array of utf8', tm.rel, cf.lineno, 'array-of-strings special case changed: %s' % [g.text() for r_ in arr_ret for g in P.guards(r_)])
+    CS = gsa.summarise(ctx, 'transformer', 'Transformer.create_type_from_ctype_string', opaque=('_canonicalize_ctype', '_create_bare_container_type'))
+
+    def rets(spec):
+        return gsa.returns_under(CS, gsa.decide_by(spec))
+    for sp in ('_Bool', 'bool'):
+        got = rets([(r"== '%s'$" % sp, True), (r"== '(_Bool|bool|utf8\*|GStrv)'$", False), (r"get\('gboolean'\) is None$", False)])
+        r1.check(len(got) == 1 and got[0][2] and "'gboolean'" in got[0][0] and got[0][0].startswith('ast.Type('), '%s -> gboolean' % sp, tm.rel, cf.lineno,
+                 'a C type canonicalised to %s yields %s: it is no longer turned into gboolean' % (sp, [g[0][:80] for g in got]), detail=[g[0][:80] for g in got])
+    arr_a = rets([(r'^is_return$', True), (r"== 'utf8\*'$", True), (r"== '(_Bool|bool)'$", False)])
+    arr_b = rets([(r'^is_return$', False), (r"== 'GStrv'$", True), (r"== '(_Bool|bool)'$", False)])
+    arr_c = rets([(r'^is_return$', False), (r"== 'utf8\*'$", True), (r"== '(_Bool|bool|GStrv)'$", False)])
+    isarr = lambda got: len(got) == 1 and got[0][2] and got[0][0].startswith('ast.Array(None, ') and 'TYPE_STRING' in got[0][0]
+    r1.check(isarr(arr_a) and isarr(arr_b) and not any(g[0].startswith('ast.Array(None') for g in arr_c), 'returned char** and GStrv -> array of utf8', tm.rel, cf.lineno,
+             'array-of-strings special case changed: returned utf8* -> %s; GStrv -> %s; non-returned utf8* -> %s' % ([g[0][:60] for g in arr_a], [g[0][:60] for g in arr_b], [g[0][:60] for g in arr_c]))
 
     # ------------------------------------------------------------------ R1b canonicalisation peels one pointer level at a time
     r1b = ctx.rule('R1b', 'pointer canonicalisation: alias lookup first, then strip exactly one "*" and recurse', floor=3)
     cc = py.func('transformer', 'Transformer._canonicalize_ctype')
     param = cc.args.args[1].arg
-    rec = [c for c in P.calls_in(cc) if P.call_name(c) == 'self._canonicalize_ctype']
-    st = dict((t.id, P.src(v)) for t, v, s_ in P.stores_in(cc) if isinstance(t, ast.Name))
-    okr = len(rec) == 1 and isinstance(rec[0].args[0], ast.Name) and st.get(rec[0].args[0].id) == '%s[:-1]' % param
-    r1b.check(okr, 'recursion strips exactly one trailing "*"', tm.rel, cc.lineno,
-              '_canonicalize_ctype recurses on %s: with more than one level stripped at once, pointer-qualified aliases (char* -> utf8, void* -> gpointer) are no longer '
-              'found for multi-level pointers such as char**' % ([st.get(a.id) if isinstance(a, ast.Name) else P.src(a) for c in rec for a in c.args]), detail=st)
-    first = [s_ for s_ in cc.body if not (isinstance(s_, ast.Expr) and isinstance(s_.value, ast.Constant))][0]
-    r1b.check(isinstance(first, ast.Assign) and P.src(first.value) == 'ast.type_names.get(%s)' % param, 'whole spelling looked up before any stripping', tm.rel, cc.lineno,
-              'first statement is %s' % P.src(first))
-    rets = [P.src(n.value) for n in P.walk_no_nested(cc) if isinstance(n, ast.Return)]
-    r1b.check(len(rets) == 3 and any(r_.endswith('.target_fundamental') for r_ in rets) and param in rets, 'returns: alias target, unchanged non-pointer, or canonical base + "*"', tm.rel, cc.lineno,
-              'returns: %s' % rets, detail=rets)
+    CC = gsa.summarise(ctx, 'transformer', 'Transformer._canonicalize_ctype')
+    PP = re.escape(param)
+    look = r'type_names\.get\(%s\)$' % PP
+    hit = gsa.returns_under(CC, gsa.decide_by([(look, True)]))
+    r1b.check(len(hit) == 1 and hit[0][2] and hit[0][0] == 'ast.type_names.get(%s).target_fundamental' % param, 'whole spelling looked up before any stripping', tm.rel, cc.lineno,
+              'with the whole spelling present in type_names the function returns %s' % [h[0] for h in hit], detail=[h[0] for h in hit])
+    ptr = gsa.returns_under(CC, gsa.decide_by([(look, False), (r"%s\.endswith\('\*'\)$" % PP, True)]))
+    r1b.check(len(ptr) == 1 and ptr[0][2] and ptr[0][0] == "self._canonicalize_ctype(%s[:-1]) + '*'" % param, 'recursion strips exactly one trailing "*"', tm.rel, cc.lineno,
+              '_canonicalize_ctype of an unknown pointer spelling returns %s: with more than one level stripped at once, pointer-qualified aliases (char* -> utf8, void* -> gpointer) are no longer '
+              'found for multi-level pointers such as char**' % [h[0] for h in ptr], detail=[h[0] for h in ptr])
+    plain = gsa.returns_under(CC, gsa.decide_by([(look, False), (r"%s\.endswith\('\*'\)$" % PP, False)]))
+    r1b.check(len(plain) == 1 and plain[0][2] and plain[0][0] == param, 'unknown non-pointer spelling returned unchanged', tm.rel, cc.lineno, 'returns: %s' % [h[0] for h in plain], detail=[h[0] for h in plain])
 
     # ------------------------------------------------------------------ R2 transfer defaults, exhaustive
     r2 = ctx.rule('R2', 'transfer defaults evaluated over their whole abstract domain', floor=60)
     NONE, FULL = py.fold_name(am, 'PARAM_TRANSFER_NONE'), py.fold_name(am, 'PARAM_TRANSFER_FULL')
     fp = py.func(MT, 'MainTransformer._get_transfer_default_param')
+    FP = gsa.summarise(ctx, MT, 'MainTransformer._get_transfer_default_param')
+
+    def folded(got):
+        out = []
+        for text, node, definite in got:
+            try:
+                v = py.fold(node, mt) if node is not None else None
+            except P.Unfoldable:
+                v = 'EXPR:' + text
+            out.append(v if definite else ('maybe', v))
+        return out
     for d in ('in', 'out', 'inout', None):
         for ca in (False, True):
-            got = eval_function(py, fp, {'node.direction': d, 'node.caller_allocates': ca}, mt)
+            def dec(a, d=d, ca=ca):
+                mm = re.search(r'\.direction == ast\.PARAM_DIRECTION_(\w+)$', a)
+                if mm:
+                    return d is not None and mm.group(1).lower() == d
+                if re.search(r'\.caller_allocates$', a):
+                    return ca
+                return None
+            got = folded(gsa.returns_under(FP, dec))
             exp = NONE if d in ('in', None) else (NONE if ca else FULL)
-            r2.check(got == exp, 'parameter direction=%s caller_allocates=%s -> transfer %s' % (d, ca, exp), mt.rel, fp.lineno,
+            r2.check(got == [exp], 'parameter direction=%s caller_allocates=%s -> transfer %s' % (d, ca, exp), mt.rel, fp.lineno,
                      'default transfer of a %s parameter (caller-allocates=%s) is %r, documented default is %r' % (d, ca, got, exp), detail=got)
     fb = py.func(MT, 'MainTransformer._get_transfer_default_returntype_basic')
     basic_doc = set(['gboolean', 'gfloat', 'gdouble', 'glong', 'gulong', 'GType', 'gint', 'guint', 'gchar', 'gshort', 'gushort', 'gsize', 'gssize', 'gintptr', 'guintptr', 'gunichar']
@@ -209,16 +234,26 @@ def check(ctx):
                 out |= s_
             return out
         return None
+    FB = gsa.summarise(ctx, MT, 'MainTransformer._get_transfer_default_returntype_basic')
     for fund in all_fund + [None]:
         for const in (False, True):
-            def is_equiv(n, fund=fund):
-                if isinstance(n, ast.Call) and isinstance(n.func, ast.Attribute) and n.func.attr == 'is_equiv' and P.src(n.func.value) == 'typeval':
-                    s_ = fundamentals_of(n.args[0])
+            def dec(a, fund=fund, const=const):
+                mm = re.search(r'\.is_equiv\((.*)\)$', a)
+                if mm:
+                    try:
+                        s_ = fundamentals_of(ast.parse(mm.group(1), mode='eval').body)
+                    except SyntaxError:
+                        s_ = None
                     if s_ is None:
-                        raise AnalysisError('cannot fold %s' % P.src(n))
+                        raise AnalysisError('cannot fold %s' % a)
                     return fund in s_
+                if re.search(r'\.is_const$', a):
+                    return const
+                if re.search(r'\.target_fundamental$', a):
+                    return bool(fund)
                 return None
-            got = eval_function(py, fb, {'typeval.is_const': const, 'typeval.target_fundamental': fund}, mt, is_equiv)
+            got = folded(gsa.returns_under(FB, dec))
+            got = got[0] if len(got) == 1 else got
             if const or fund in basic_doc or fund in ('gpointer', 'none'):
                 exp = NONE
             elif fund == 'utf8':
@@ -243,62 +278,87 @@ def check(ctx):
         r2.check(obj.attrs.get('transfer') == exp, 'TypeContainer: const type without transfer -> %s' % exp, am.rel, init.lineno, 'TypeContainer.transfer = %r' % obj.attrs.get('transfer'))
     # dispatcher
     gd = py.func(MT, 'MainTransformer._get_transfer_default')
-    rows = []
-    for n in P.walk_no_nested(gd):
-        if isinstance(n, ast.Return):
-            rows.append(([g.text() for g in P.guards(n) if g.kind == 'if' and g.polarity][-1:], P.src(n.value)))
-    want = [(['node.type.is_equiv(ast.TYPE_NONE) or isinstance(node.type, ast.Varargs)'], 'ast.PARAM_TRANSFER_NONE'),
-            (['isinstance(node, ast.Parameter)'], 'self._get_transfer_default_param(parent, node)'),
-            (['isinstance(node, ast.Return)'], 'self._get_transfer_default_return(parent, node)'),
-            (['isinstance(node, ast.Field)'], 'ast.PARAM_TRANSFER_NONE'), (['isinstance(node, ast.Property)'], 'ast.PARAM_TRANSFER_NONE')]
-    for wrow in want:
-        r2.check(wrow in rows, 'default dispatch: %s -> %s' % (wrow[0][0][:40], wrow[1][-30:]), mt.rel, gd.lineno, 'dispatch rows: %s' % rows)
+    GD = gsa.summarise(ctx, MT, 'MainTransformer._get_transfer_default', opaque=('_get_transfer_default_param', '_get_transfer_default_return'))
+    for kind, want in (('Parameter', r'^self\._get_transfer_default_param\('), ('Return', r'^self\._get_transfer_default_return\('), ('Field', r'^ast\.PARAM_TRANSFER_NONE$'),
+                       ('Property', r'^ast\.PARAM_TRANSFER_NONE$'), ('<void or varargs>', r'^ast\.PARAM_TRANSFER_NONE$')):
+        def dec(a, kind=kind):
+            if re.search(r'\.type\.is_equiv\(ast\.TYPE_NONE\)$|isinstance\(\w+\.type, ast\.Varargs\)$', a):
+                return kind.startswith('<')
+            mm = re.search(r'^isinstance\(\w+, ast\.(\w+)\)$', a)
+            if mm:
+                return mm.group(1) == kind
+            return None
+        got = gsa.returns_under(GD, dec)
+        r2.check(len(got) == 1 and got[0][2] and re.search(want, got[0][0]), 'default dispatch: %s -> %s' % (kind, want.strip('^$\\')), mt.rel, gd.lineno, 'for a %s the default is taken from %s' % (kind, [g[0] for g in got]),
+                 detail=[g[0] for g in got])
 
     # ------------------------------------------------------------------ R3 callable roles
     r3 = ctx.rule('R3', 'throws, callback closure/destroy/scope roles, untyped pointers nullable', floor=8)
     th = py.func(MT, 'MainTransformer._pass3_callable_throws')
-    te = P.effects(th)
-    pop = [e for e in te if e.kind == 'call' and e.target == 'node.parameters.pop']
-    thr = [e for e in te if e.kind == 'store' and e.target == 'node.throws' and e.value == 'True']
-    lp = dict((t.id, P.src(v)) for t, v, s_ in P.stores_in(th) if isinstance(t, ast.Name))
-    ok = len(pop) == 1 and len(thr) == 1 and pop[0].under("ctype == 'GError**'", True) and thr[0].under("ctype == 'GError**'", True) and 'node.parameters[-1]' in lp.values()
-    r3.check(ok, 'trailing GError** removed and throws set together', mt.rel, th.lineno, 'pop: %s throws: %s last: %s' % (pop, thr, lp))
+    TH = gsa.summarise(ctx, MT, 'MainTransformer._pass3_callable_throws')
+    nd = re.escape(th.args.args[1].arg)
+    pop = gsa.find(TH, 'call', r'^%s\.parameters\.pop$' % nd)
+    thr = gsa.find(TH, 'store', r'^%s\.throws$' % nd, r'^True$')
+    GE = r"^%s\.parameters\[-1\]\.type\.ctype == 'GError\*\*'$" % nd
+    ok = len(pop) == 1 and len(thr) == 1 and not pop[0].args and gsa.equiv(pop[0].cond, thr[0].cond) and gsa.needs(TH, pop[0], GE) and \
+        gsa.allowed(TH, pop[0], [(GE, True), (r'\.parameters$', True)])
+    r3.check(ok, 'trailing GError** removed and throws set together', mt.rel, th.lineno, 'pop: %s throws: %s' % (pop, thr))
     cb = py.func(MT, 'MainTransformer._pass3_callable_callbacks')
-    ce = [e for e in P.effects(cb) if e.kind == 'store']
+    CB = gsa.summarise(ctx, MT, 'MainTransformer._pass3_callable_callbacks')
+    DN = r"gi_name == 'GLib\.DestroyNotify'$"
+    ISCB = r'^isinstance\(.*, ast\.Callback\)$'
+    CUR = r'^(\w+) is None$'
 
-    def has(target, value, under):
-        return any(e.target == target and e.value == value and all(e.under(u, p_) for u, p_ in under) for e in ce)
-    r3.check(has('callback_param.destroy_name', 'param.argname', [('is_destroynotify', True), ('callback_param is None', False)]) and
-             has('callback_param.scope', 'ast.PARAM_SCOPE_NOTIFIED', [('is_destroynotify', True)]), 'destroy-notify after a callback -> destroy + notified scope', mt.rel, cb.lineno,
-             'destroy role stores changed')
-    r3.check(has('callback_param.closure_name', 'param.argname', [("param.argname.endswith('data')", True), ('param.type.is_equiv(ast.TYPE_ANY)', True), ('callback_param is None', False)]),
-             'untyped *data pointer after a callback -> closure', mt.rel, cb.lineno, 'closure role store changed')
-    r3.check(has('param.scope', 'ast.PARAM_SCOPE_ASYNC', [("'Gio.AsyncReadyCallback'", True)]), 'async-ready callback -> async scope', mt.rel, cb.lineno, 'async scope store changed')
+    def has(target, value, must, forbid=()):
+        return [e for e in gsa.find(CB, 'store', target, value) if all(gsa.needs(CB, e, m_) for m_ in must) and all(gsa.impossible(CB, e, [f_]) for f_ in forbid)]
+    d1 = has(r'^\w+\.destroy_name$', r'^\w+\.argname$', [DN, ISCB], forbid=[(CUR, True)])
+    d2 = has(r'^\w+\.scope$', r'^ast\.PARAM_SCOPE_NOTIFIED$', [DN, ISCB], forbid=[(CUR, True)])
+    r3.check(d1 and d2 and d1[0].target.split('.')[0] == d2[0].target.split('.')[0] and d1[0].target.split('.')[0] != d1[0].value.split('.')[0],
+             'destroy-notify after a callback -> destroy + notified scope', mt.rel, cb.lineno, 'destroy role stores changed: %s %s' % (d1, d2))
+    c1 = has(r'^\w+\.closure_name$', r'^\w+\.argname$', [r"\.argname\.endswith\('data'\)$", r'\.type\.is_equiv\(ast\.TYPE_ANY\)$'], forbid=[(CUR, True)])
+    r3.check(bool(c1) and c1[0].target.split('.')[0] != c1[0].value.split('.')[0], 'untyped *data pointer after a callback -> closure', mt.rel, cb.lineno, 'closure role store changed: %s' % gsa.find(CB, 'store', r'\.closure_name$'))
+    AR = r"gi_name == 'Gio\.AsyncReadyCallback'$"
+    a1 = [e for e in gsa.find(CB, 'store', r'^\w+\.scope$', r'^ast\.PARAM_SCOPE_ASYNC$') if gsa.needs(CB, e, ISCB) and gsa.allowed(CB, e, [(AR, True), (DN, False), (ISCB, True), (r'^@', True)])
+          and gsa.impossible(CB, e, [(AR, False), (DN, False)])]
+    r3.check(bool(a1), 'async-ready callback -> async scope', mt.rel, cb.lineno, 'async scope store changed')
     # the remembered callback stays remembered after its destroy notify (callback, destroy, user_data order)
-    resets = [s_ for t, v, s_ in P.stores_in(cb) if isinstance(t, ast.Name) and t.id == 'callback_param' and P.src(v) == 'None']
-    loops = [n for n in P.walk_no_nested(cb) if isinstance(n, ast.For)]
-    inside = [s_ for s_ in resets if any(any(x is s_ for x in ast.walk(l)) for l in loops)]
-    r3.check(len(resets) == 1 and not inside, 'callback stays current after its destroy notify', mt.rel, cb.lineno,
-             'callback_param is reset inside the parameter loop (line %s): in the arrangement (callback, GDestroyNotify, user_data) the callback keeps its destroy but loses its closure'
-             % [s_.lineno for s_ in inside])
-    only_cb = [e for e in ce if e.target == 'callback_param' or False]
-    cont = [(P.src(v), [g.text() for g in P.guards(s_) if g.kind == 'if']) for t, v, s_ in P.stores_in(cb) if isinstance(t, ast.Name) and t.id == 'callback_param' and P.src(v) == 'param']
-    r3.check(len(cont) == 1 and any("argnode.gi_name == 'GLib.DestroyNotify'" in g for g in cont[0][1]), 'any callback other than destroy-notify becomes the current callback', mt.rel, cb.lineno,
-             'callback selection: %s' % cont)
-    common = py.func(MT, 'MainTransformer._apply_annotations_param_ret_common')
-    r3.check(any(e.kind == 'store' and e.target == 'node.nullable' and e.value == 'True' and e.gtexts() == ['node.type.is_equiv(ast.TYPE_ANY)'] for e in P.effects(common)),
-             'untyped pointers are nullable', mt.rel, common.lineno, 'gpointer default nullable store changed')
+    cur = d1[0].target.split('.')[0] if d1 else None
+    loc = [e for e in CB.effects if e.kind == 'local' and e.target == cur]
+    resets = [e for e in loc if e.value == 'None']
+    r3.check(cur is not None and not resets, 'callback stays current after its destroy notify', mt.rel, resets[0].line if resets else cb.lineno,
+             'the remembered callback is reset inside the parameter loop (%s): in the arrangement (callback, GDestroyNotify, user_data) the callback keeps its destroy but loses its closure'
+             % [e.when()[:120] for e in resets])
+    sel = [e for e in loc if e.value != 'None']
+    want = gsa.conj(*[x for x in [gsa.atom(a_) for a_ in CB.atoms() if re.search(ISCB, a_)][:1]] + [gsa.neg(gsa.atom(a_)) for a_ in CB.atoms() if re.search(DN, a_)][:1])
+    oksel = len(sel) == 1 and gsa.equiv(gsa.assign(sel[0].cond, dict([(a_, True) for a_ in gsa.atoms(sel[0].cond) if a_.startswith('@')] +
+                                                                    [(a_, False) for a_ in gsa.atoms(sel[0].cond) if a_.endswith('.gi_name is None')])), want)   # a Callback always has a gi_name
+    r3.check(oksel, 'any callback other than destroy-notify becomes the current callback', mt.rel, sel[0].line if sel else cb.lineno,
+             'callback selection: %s' % [(e.value, e.when()[:200]) for e in sel])
+    SC = gsa.summarise(ctx, MT, 'MainTransformer._apply_annotations_param_ret_common', opaque=('_is_pointer_type', '_get_validate_parameter_name', '_resolve_toplevel', '_resolve', '_get_transfer_default',
+                                                                                                '_apply_transfer_annotation', '_adjust_container_type'))
+    nn = re.escape(SC.P(2))
+    anyp = [e for e in gsa.find(SC, 'store', r'^%s\.nullable$' % nn, r'^True$') if gsa.equiv(e.cond, gsa.atom('%s.type.is_equiv(ast.TYPE_ANY)' % SC.P(2)))]
+    r3.check(bool(anyp), 'untyped pointers are nullable', mt.rel, SC.func.lineno, 'gpointer default nullable store changed: %s' % gsa.find(SC, 'store', r'^%s\.nullable$' % nn, r'^True$'))
     # user_data in callbacks (transformer)
     tc = py.func('transformer', 'Transformer._create_callback')
-    r3.check(any(e.kind == 'store' and e.target == 'param.closure_name' and e.value == 'param.argname' and e.under("param.argname == 'user_data'", True) for e in P.effects(tc)),
-             'callback typedef: gpointer user_data is the closure', tm.rel, tc.lineno, '_create_callback closure marking changed')
+    TC = gsa.summarise(ctx, 'transformer', 'Transformer._create_callback', opaque=('_create_parameters', '_create_return', '_create_type_from_base'))
+    ud = [e for e in gsa.find(TC, 'store', r'\.closure_name$', r'\.argname$') if gsa.needs(TC, e, r"\.argname == 'user_data'$")]
+    r3.check(bool(ud), 'callback typedef: gpointer user_data is the closure', tm.rel, tc.lineno, '_create_callback closure marking changed: %s' % gsa.find(TC, 'store', r'\.closure_name$'))
 
     # ------------------------------------------------------------------ R4 c:type kept
     r4 = ctx.rule('R4', 'the original C spelling is kept as c:type on every type created from a C type string', floor=3)
-    for n in P.walk_no_nested(cf):
-        if isinstance(n, ast.Return) and isinstance(n.value, ast.Call) and P.call_name(n.value) in ('ast.Type', 'ast.Array'):
-            kw = dict((k.arg, P.src(k.value)) for k in n.value.keywords)
-            r4.check(kw.get('ctype') == 'ctype' and kw.get('complete_ctype') == 'complete_ctype' and kw.get('is_const') == 'is_const', 'return %s(...) keeps ctype' % P.call_name(n.value), tm.rel, n.lineno,
-                     '%s is built with ctype=%s complete_ctype=%s' % (P.call_name(n.value), kw.get('ctype'), kw.get('complete_ctype')), detail=kw)
-    bc = [c for c in P.calls_in(cf) if P.call_name(c) == 'self._create_bare_container_type']
-    r4.check(len(bc) == 1 and dict((k.arg, P.src(k.value)) for k in bc[0].keywords).get('ctype') == 'ctype', 'container types keep ctype', tm.rel, cf.lineno, 'container creation changed')
+    pn = [a_.arg for a_ in cf.args.args]
+    if not all(x in pn for x in ('is_const', 'complete_ctype')) or len(pn) < 2:
+        raise AnalysisError('create_type_from_ctype_string signature changed: %s' % pn)
+    cparam = pn[1]
+    seen = set()
+    for g, n in CS.returns:
+        if not isinstance(n, ast.Call):
+            continue
+        nm = P.call_name(n)
+        if nm in ('ast.Type', 'ast.Array', 'self._create_bare_container_type') and gsa._unparse(n) not in seen:
+            seen.add(gsa._unparse(n))
+            kw = dict((k.arg, gsa._unparse(k.value)) for k in n.keywords)
+            r4.check(kw.get('ctype') == cparam and kw.get('complete_ctype') == 'complete_ctype' and kw.get('is_const') == 'is_const', 'return %s(...) keeps ctype' % nm, tm.rel, cf.lineno,
+                     '%s is built with ctype=%s complete_ctype=%s is_const=%s' % (nm, kw.get('ctype'), kw.get('complete_ctype'), kw.get('is_const')), detail=kw)
+    r4.check(any(x.startswith('self._create_bare_container_type') for x in seen), 'container types keep ctype', tm.rel, cf.lineno, 'container creation changed')
